@@ -45,7 +45,7 @@ def main():
     quick = core.tier() == "quick"
     F, pof = universe()
     cfgs = [mc.std_cfg(["x", "y"])]
-    ml = 4 if quick else 6
+    ml = 4 if quick else 5
     Fq = F[::3] if quick else F
     r = mc.rtamt_mc("C03_scheme", Fq, cfgs, maxlen=ml, invariants=["InvC03", "InvC02", "InvC10"])
     rep.add_mc("pastification scheme on bounded-future formulas without past-over-future, all traces", r)
